@@ -175,3 +175,45 @@ theorem altStable_of_fits (r : RegL) (rd : RegD) (v : Nat) (h : ∀ a ∈ rd.alt
 
 
 end SpsdkVerif.C12
+
+/-! ### scalar decoding of `_load_yml_config` -/
+
+namespace SpsdkVerif.CfgArea
+
+theorem digitsVal_append (base : Nat) (xs : List Nat) (d : Nat) : digitsVal base (xs ++ [d]) = digitsVal base xs * base + d := by
+  simp [digitsVal, List.foldl_append]
+
+theorem digitsVal_hexDigits : ∀ (n v : Nat), digitsVal 16 (hexDigits n v) = v % 16 ^ n := by
+  intro n
+  induction n with
+  | zero => intro v; simp [hexDigits, digitsVal, Nat.mod_one]
+  | succ n ih =>
+    intro v
+    rw [hexDigits, digitsVal_append, ih, Nat.pow_succ', Nat.mod_mul]
+    omega
+
+theorem hexDigits_ne_nil (n v : Nat) (hn : 0 < n) : (hexDigits n v).isEmpty = false := by
+  cases n with
+  | zero => omega
+  | succ n => simp [hexDigits]
+
+/-- a rule whose first applicable step (hex-string register, string value) is `int(x, 16)` reads the text `get_hex_value` wrote
+    back as the value -/
+theorem decodeScalar_hex (rule : ScalarRule) (h : hexFirstB rule = true) (n v : Nat) (hn : 0 < n) (hv : v < 16 ^ n) :
+    decodeScalar rule true (.digits (hexDigits n v)) = some v := by
+  induction rule with
+  | nil => simp [hexFirstB] at h
+  | cons st rest ih =>
+    simp only [hexFirstB, List.find?_cons] at h
+    by_cases hc : st.cond.holds true true = true
+    · simp only [hc] at h
+      have hp : st.parser = .hex16 := by simpa using h
+      simp only [decodeScalar, Scalar.isStr, hc, if_true, hp, ScalarParser.run, parseHex16, hexDigits_ne_nil n v hn,
+        digitsVal_hexDigits, Nat.mod_eq_of_lt hv]
+      rfl
+    · have hc' : st.cond.holds true true = false := by simpa using hc
+      simp only [hc'] at h
+      simp only [decodeScalar, Scalar.isStr, hc']
+      exact ih h
+
+end SpsdkVerif.CfgArea
